@@ -3,6 +3,7 @@ package mgmt
 import (
 	"errors"
 	"fmt"
+	"runtime"
 	"sort"
 	"strings"
 	"sync"
@@ -198,7 +199,9 @@ func getConcRig(fib string) *concRigT {
 			defn.PointToPoint, defn.MaxNDNPacketSize)
 		ls2 := face.MakeNDNLPLinkService(tr2, face.MakeNDNLPLinkServiceOptions())
 		ls2.Run(nil)
-		if err := waitFor(func() bool { return face.FaceTable.Get(ls2.FaceID()) != nil && face.FaceTable.Get(r.ls.FaceID()) != nil }); err != nil {
+		if err := waitFor(func() bool {
+			return face.FaceTable.Get(ls2.FaceID()) != nil && face.FaceTable.Get(r.ls.FaceID()) != nil
+		}); err != nil {
 			concRig.err = err
 			return
 		}
@@ -421,4 +424,181 @@ func TestC16MgmtRoutesHT(t *testing.T) {
 }
 func TestC16MgmtRoutesHTReplay(t *testing.T) {
 	evid.Replay(t, "TestC16MgmtRoutesHT", execConcFor("hashtable"))
+}
+
+// ---------------------------------------------------------------------------- registration racing the face's own teardown
+//
+// An application connects, sends rib/register (the route points at the requesting face, or --
+// Explicit -- at another short-lived face it names) and goes away at once; the face's teardown
+// (face table, dispatch map, RIB clean-up) runs on the face's goroutine while the command is still
+// on its way through the forwarding thread to the management thread. Whatever the order, after
+// both have finished the tables must equal a sequential order of "register" and "face removed":
+// no route and no next hop towards a face that no longer exists.
+
+type GoneRound struct {
+	P        int  `json:"p"`        // prefix index
+	Explicit bool `json:"explicit"` // the route names a second short-lived face instead of the requesting one
+	Yield    int  `json:"yield"`    // processor yields between sending the command and closing the face
+	Cmds     int  `json:"cmds"`     // 1..3 registrations sent back to back before the face closes
+}
+
+type GoneCase struct {
+	Rounds []GoneRound `json:"rounds"`
+}
+
+func genGoneCase(t *rapid.T) GoneCase {
+	var c GoneCase
+	n := 1 + uni(t, "rounds", 12)
+	for i := 0; i < n; i++ {
+		c.Rounds = append(c.Rounds, GoneRound{P: uni(t, "p", len(concPrefixes)), Explicit: pct(t, "explicit", 35),
+			Yield: pick(t, "yield", []int{0, 0, 1, 2, 5, 20}), Cmds: 1 + uni(t, "cmds", 3)})
+	}
+	return c
+}
+
+func execGoneFor(fib string) func(GoneCase) evid.Result {
+	return func(c GoneCase) (res evid.Result) {
+		finish := func(err error, cl ...string) evid.Result {
+			if errors.Is(err, errWatchdog) {
+				panic(fmt.Sprintf("watchdog: no progress for %v (%v)", watchdog, err))
+			}
+			return evid.Result{Err: err, Classes: cl, NonTrivial: len(c.Rounds) >= 2}
+		}
+		rg := getConcRig(fib)
+		if rg.err != nil {
+			return finish(rg.err)
+		}
+		r := rg.r
+		signer := sec.NewSha256IntSigner(basic.NewTimer())
+		mk := func(i int) (*face.VerifTransport, *face.NDNLPLinkService) {
+			tr := face.VerifMakeTransport(defn.DecodeURIString(fmt.Sprintf("fd://%d", 300+i)), defn.DecodeURIString("unix:///run/nfd/nfd.sock"),
+				face.PersistencyPersistent, defn.Local, defn.PointToPoint, defn.MaxNDNPacketSize)
+			ls := face.MakeNDNLPLinkService(tr, face.MakeNDNLPLinkServiceOptions())
+			ls.Run(nil)
+			return tr, ls
+		}
+		var classes []string
+		for ri, rd := range c.Rounds {
+			trA, lsA := mk(2 * ri)
+			trB, lsB := mk(2*ri + 1)
+			if err := waitFor(func() bool { return face.FaceTable.Get(lsA.FaceID()) != nil && face.FaceTable.Get(lsB.FaceID()) != nil }); err != nil {
+				return finish(err)
+			}
+			target := lsA.FaceID()
+			a := &mgmt.ControlArgs{Name: mkName(concPrefixes[rd.P])}
+			if rd.Explicit {
+				target = lsB.FaceID()
+				a.FaceId = utils.IdPtr(target)
+			}
+			for k := 0; k < rd.Cmds; k++ {
+				concNonce++
+				a.Cost = utils.IdPtr(uint64(k))
+				it, err := mgmt.NewConfig(true, signer, spec.Spec{}).MakeCmd("rib", "register", a,
+					&ndn.InterestConfig{Lifetime: utils.IdPtr(4 * time.Second), Nonce: utils.IdPtr(concNonce)})
+				if err != nil {
+					return finish(fmt.Errorf("harness: MakeCmd: %v", err))
+				}
+				lsA.VerifHandleIncomingFrame(it.Wire.Join())
+			}
+			for y := 0; y < rd.Yield; y++ {
+				runtime.Gosched()
+			}
+			// the application goes away (and, Explicit, so does the face its route names)
+			if rd.Explicit {
+				trB.Close()
+			}
+			trA.Close()
+			if err := waitFor(func() bool {
+				return face.FaceTable.Get(lsA.FaceID()) == nil && (!rd.Explicit || face.FaceTable.Get(lsB.FaceID()) == nil)
+			}); err != nil {
+				return finish(err)
+			}
+			// barrier: commands reach the management thread in order, so once this one is answered
+			// the registrations above have been dealt with
+			concNonce++
+			bar, err := mgmt.NewConfig(true, signer, spec.Spec{}).MakeCmd("rib", "unregister",
+				&mgmt.ControlArgs{Name: mkName("/c16/barrier")}, &ndn.InterestConfig{Lifetime: utils.IdPtr(4 * time.Second), Nonce: utils.IdPtr(concNonce)})
+			if err != nil {
+				return finish(fmt.Errorf("harness: MakeCmd: %v", err))
+			}
+			if _, err := r.ask(bar.Wire.Join(), bar.FinalName, false); err != nil {
+				return finish(err)
+			}
+			if !rd.Explicit {
+				trB.Close()
+				if err := waitFor(func() bool { return face.FaceTable.Get(lsB.FaceID()) == nil }); err != nil {
+					return finish(err)
+				}
+			}
+			// A face that has left the face table may still be in the middle of its teardown (the RIB
+			// clean-up follows the removal from the table): what must not happen is that something
+			// towards it *stays*. Stale state is reported only if it is still there 5 s after the
+			// management thread answered the barrier.
+			stale := func() error {
+				for _, e := range table.Rib.GetAllEntries() {
+					for _, rt := range e.GetRoutes() {
+						if rt.FaceID == target {
+							return fmt.Errorf("round %d: face %d registered %s (%d command(s)%s) and went away; 5 s after its removal from the face table and after the management thread had dealt with the command the RIB still holds a route of %s towards face %d, which no longer exists -- no order of 'register' and 'face removed' leaves that",
+								ri, lsA.FaceID(), concPrefixes[rd.P], rd.Cmds, map[bool]string{true: ", naming a second face that left with it", false: ""}[rd.Explicit], e.Name, target)
+						}
+					}
+				}
+				for _, h := range table.FibStrategyTable.FindNextHopsEnc(mkName(concPrefixes[rd.P] + "/x")) {
+					if h.Nexthop == target {
+						return fmt.Errorf("round %d: 5 s after face %d left, the FIB still forwards %s/x to it", ri, target, concPrefixes[rd.P])
+					}
+				}
+				return nil
+			}
+			var serr error
+			for end := time.Now().Add(5 * time.Second); ; time.Sleep(200 * time.Microsecond) {
+				if serr = stale(); serr == nil || time.Now().After(end) {
+					break
+				}
+			}
+			if serr != nil {
+				return finish(serr)
+			}
+			if rd.Explicit {
+				classes = append(classes, "route-names-a-second-face-that-leaves-too")
+			}
+		}
+		return finish(nil, dedupeStr(classes)...)
+	}
+}
+
+func dedupeStr(xs []string) []string {
+	seen := map[string]bool{}
+	var out []string
+	for _, x := range xs {
+		if !seen[x] {
+			seen[x] = true
+			out = append(out, x)
+		}
+	}
+	return out
+}
+
+const goneRule = "1..12 rounds against a process-lifetime daemon on the real scheduler: a fresh face sends 1..3 signed rib/register commands (route towards itself, or towards a second fresh face it names) and its transport closes after 0..20 processor yields, so that the face's teardown races the command's way to the management thread; once the face has left the face table and a later command has been answered, neither RIB nor FIB may hold anything towards the departed face. Built with -race. Non-trivial: >= 2 rounds; distinct by case hash"
+
+func TestC16MgmtFaceGone(t *testing.T) {
+	rec := evid.New("C16", "TestC16MgmtFaceGone", "name-tree FIB; "+goneRule)
+	evid.Check(t, rec, genGoneCase, execGoneFor("nametree"))
+}
+func TestC16MgmtFaceGoneReplay(t *testing.T) {
+	evid.Replay(t, "TestC16MgmtFaceGone", execGoneFor("nametree"))
+}
+func TestC16MgmtFaceGoneHT(t *testing.T) {
+	rec := evid.New("C16", "TestC16MgmtFaceGoneHT", "hash-table FIB; "+goneRule)
+	evid.Check(t, rec, genGoneCase, execGoneFor("hashtable"))
+}
+func TestC16MgmtFaceGoneHTReplay(t *testing.T) {
+	evid.Replay(t, "TestC16MgmtFaceGoneHT", execGoneFor("hashtable"))
+}
+
+func TestC16MgmtFaceGoneRegress(t *testing.T) {
+	evid.Regress(t, "C16", "TestC16MgmtFaceGone", execGoneFor("nametree"))
+}
+func TestC16MgmtFaceGoneHTRegress(t *testing.T) {
+	evid.Regress(t, "C16", "TestC16MgmtFaceGoneHT", execGoneFor("hashtable"))
 }
